@@ -18,7 +18,7 @@ import (
 func init() {
 	Registry["C01"] = C01
 	Metas["C01"] = Meta{
-		Explanation: "Decides, for every public method of both cache implementations and on every abstract path (absent / live / expired state of the key x outcomes of user functions x nil-ness of callback and visitor), the per-call clauses of C01 by role evaluation (abstract interpretation of the method's SSA with the underlying map operations replaced by their contract): (T1) the expiry predicates decide exactly 'e > 0 and now > e' with a clock read in the call (or the caller-supplied reading for the with-now variant); every expiry decision taken anywhere in a method has that canonical shape and uses a clock reading made during the call, and an entry that a read-modify-write treats as live and hands out (result, user function, re-armed item) was compared with a reading made inside that operation's closure, i.e. after the key's lock was taken, and the reading an entry is judged with was made before any evicted callback or user function the call runs after having observed it; (T2) no value or expiration instant of an item obtained from the map reaches an API output - a result, an argument of the user's function or visitor, the Items map - unless that very item tested unexpired on the path (callback arguments are exempt: callbacks report removed, possibly expired, values); (T3) each method's decision table - abstract state of the key as seen by the deciding map operation -> (map effect, returned roles, user calls, callbacks) - equals the reviewed TTL-map reference table; (T4) an entry is removed because of expiry only when it tested expired; (T5) the premises the tables rest on are restated from their own rule families: the map-operation contract (C11.L1-L3) and the integrity of entries across grow / shrink / Clear (C03/C04 P4, P6, P8, P10); (T6, 386 configuration) the 64-bit words updated atomically are aligned (C14.A7). The per-path rules T2/T4 and the canonical-shape rule also run over exported methods added beyond the reviewed list, wherever the evaluator models them completely. NOT decided: sequences of calls (each call is checked against the contract of the map operations, whose own shape is decided in C03/C04/C11), clock behaviour, int64 overflow of now+d.",
+		Explanation: "Decides, for every public method of both cache implementations and on every abstract path (absent / live / expired state of the key x outcomes of user functions x nil-ness of callback and visitor), the per-call clauses of C01 by role evaluation (abstract interpretation of the method's SSA with the underlying map operations replaced by their contract): (T1) the expiry predicates decide exactly 'e > 0 and now > e' with a clock read in the call (or the caller-supplied reading for the with-now variant); every expiry decision taken anywhere in a method has that canonical shape and uses a clock reading made during the call, and an entry that a read-modify-write treats as live and hands out (result, user function, re-armed item) was compared with a reading made inside that operation's closure, i.e. after the key's lock was taken, and the reading an entry is judged with was made before any evicted callback or user function the call runs after having observed it; (T2) no value or expiration instant of an item obtained from the map reaches an API output - a result, an argument of the user's function or visitor, the Items map - unless that very item tested unexpired on the path (callback arguments are exempt: callbacks report removed, possibly expired, values); (T3) each method's decision table - abstract state of the key as seen by the deciding map operation -> (map effect, returned roles, user calls, callbacks) - equals the reviewed TTL-map reference table; (T4) an entry is removed because of expiry only when it tested expired (Delete and GetAndDelete remove whatever is there by contract, whichever map operation they use; their per-state behaviour is T3's); (T5) the premises the tables rest on are restated from their own rule families: the map-operation contract (C11.L1-L3) and the integrity of entries across grow / shrink / Clear (C03/C04 P4, P6, P8, P10); (T6, 386 configuration) the 64-bit words updated atomically are aligned (C14.A7). The per-path rules T2/T4 and the canonical-shape rule also run over exported methods added beyond the reviewed list, wherever the evaluator models them completely. NOT decided: sequences of calls (each call is checked against the contract of the map operations, whose own shape is decided in C03/C04/C11), clock behaviour, int64 overflow of now+d.",
 		Rule:        "one obligation per (rule, method, abstract path or table row); non-trivial = the verdict depended on at least one evaluated path; paths are partitioned by the branch atoms the method tests",
 		Assumptions: []string{"the map-operation contract used by the evaluator (checked against the compute core by C11.L1 on the same run)", "user functions are pure with respect to the cache"},
 	}
@@ -257,7 +257,9 @@ func c01T2T4(r *Run, rep *core.Report, mp *MethodPaths) {
 			}
 			// T4: physical removal motivated by expiry only of an entry that tested expired.
 			// Explicit removers (LoadAndDelete/Delete operations, user-requested deletes) are exempt.
-			if ev.Effect == "delete" && ev.Loaded == 1 && ev.Name == "Compute" && !userDeleted(p, &ev) && st.Status != "expired" {
+			// So are the removing methods themselves (Delete, GetAndDelete): removing whatever is there is their contract,
+			// whichever map operation they use for it; what they do per key state is the decision table's matter (T3).
+			if ev.Effect == "delete" && ev.Loaded == 1 && ev.Name == "Compute" && !userDeleted(p, &ev) && !explicitRemover[mp.Name] && st.Status != "expired" {
 				badT4[ev.Pos] = fmt.Sprintf("the entry observed by the Compute at %s is deleted on a path where it did not test expired (status '%s'; path: %s): an unexpired value can be dropped by lazy deletion / cleanup", ev.Pos, st.Status, sym.DescribePC(p.PC))
 			}
 		}
@@ -295,6 +297,9 @@ func sortedKeysS(m map[string]string) []string {
 
 // userDeleted: the delete decision of this Compute came from the user's function (its delete flag is an atom
 // added while the closure ran).
+// explicitRemover: the cache methods whose contract is to remove the key's entry whatever its state.
+var explicitRemover = map[string]bool{"Delete": true, "GetAndDelete": true}
+
 func userDeleted(p *sym.Path, ev *sym.Event) bool {
 	for i := ev.PCFrom; i < ev.PCTo && i < len(p.PC); i++ {
 		if p.PC[i].T.Op == "uret" && p.PC[i].V {
